@@ -60,7 +60,9 @@ def engine_run(ops, table):
                     raise ValueError("boom")
                 if e == "Remove":
                     self._should_remove_handler = True
+                    answered.setdefault(self.hid, (clock[0], any(hh is self for (hh, dd) in sock._send_handlers)))
         hs = {}
+        answered = {}
         hist = []
         failed = {}
         for op in ops:
@@ -89,6 +91,7 @@ def engine_run(ops, table):
         sendq = [h.hid for (h, d) in sock._send_handlers]
         engine_run.last_hist = hist
         engine_run.last_leftover = failed
+        engine_run.last_answered = {h: (round(t * 1000), pend) for h, (t, pend) in answered.items()}
         return sent, handlers, sendq
     finally:
         time.monotonic = real
@@ -167,7 +170,18 @@ def run(ctx):
                 added.append(h)
                 ops.append(("add", h, to, rt, now))
                 ops.append(("send", h))
-        for _ in range(rng.randrange(5, 60)):
+        late_answer = (k % 7 == 3 and not added)
+        if late_answer:
+            # late answer: the reply arrives in an iteration in which the request's timeout has already expired
+            table = [(1, 65, "Remove")] + [t for t in table if t[0] != 1]
+            tmo = rng.choice([100, 400])
+            ops += [("add", 1, tmo, rng.randrange(1, 4), now), ("send", 1), ("iter", now + 30, None), ("iter", now + 30 + tmo + rng.choice([3, 21, 45]), 65)]
+            now += 30 + tmo + 45
+            added = [1]
+            for _ in range(6):
+                now += 3 * rng.choice([7, 17, 40])
+                ops.append(("iter", now, None))
+        for _ in range(0 if late_answer else rng.randrange(5, 60)):
             r = rng.random()
             if r < 0.12 and len(added) < nh:
                 h = len(added) + 1
@@ -193,6 +207,23 @@ def run(ctx):
             "; ".join("(%d%%nat, %d, %s)" % t for t in table), "; ".join(cops),
             "; ".join("(%d, %d%%nat)" % s for s in sent), "; ".join("(%d%%nat, %d%%nat)" % h for h in handlers), "; ".join("%d%%nat" % x for x in sendq)))
         hist = engine_run.last_hist
+        for h, (ta, pending) in engine_run.last_answered.items():
+            explicit = sum(1 for o in ops if o[0] == "send" and o[1] == h)
+            late = [t for (t, hh) in sent if hh == h and t > ta]
+            nowt, sends_after = -1, 0
+            for o in ops:
+                if o[0] == "iter":
+                    nowt = o[1]
+                elif o[0] == "send" and o[1] == h and nowt >= ta:
+                    sends_after += 1          # the script itself asked for another transmission after the answer
+            if explicit <= 1 and late and not sends_after:
+                if pending:
+                    # K9: the retry was already waiting in the paced send queue when the answer arrived
+                    ctx.fail("engine:queued_retry_sent_after_answer", "handler %d was answered at ms %d while a retry of it was waiting in the send queue; that retry was transmitted at ms %s" % (h, ta, late[:3]),
+                             {"table": table, "ops": ops, "sent": sent})
+                else:
+                    ctx.fail("engine:retry_after_answer", "handler %d was answered at ms %d, nothing of it was queued then, and its request was transmitted again at ms %s" % (h, ta, late[:3]),
+                             {"table": table, "ops": ops, "sent": sent})
         if engine_run.last_leftover:
             ctx.fail("engine:not_removed", "handler(s) %s answered / out of retries were still registered after the engine iteration that decided it (iteration at ms %s)" % (
                 sorted(engine_run.last_leftover), sorted(engine_run.last_leftover.values())[:3]), {"table": table, "ops": ops, "handlers_after_each_iteration": hist})
